@@ -224,21 +224,19 @@ Qed.
 (* TRXDv2 header: RFU bit 3 of the first octet and RFU bit 6 of the second *)
 Lemma rfu2_windows_sweep :
   forallb (fun h => forallb (fun h2 =>
-    let a := Z.lor h 8 * 256 + Z.lor h2 64 in let b := h * 256 + h2 in
-    (Z.land (Z.shiftr a 12) 15 =? Z.land (Z.shiftr b 12) 15) && (Z.land (Z.shiftr a 8) 7 =? Z.land (Z.shiftr b 8) 7) &&
-    (Z.land (Z.shiftr a 7) 1 =? Z.land (Z.shiftr b 7) 1) && (Z.land (Z.shiftr a 0) 63 =? Z.land (Z.shiftr b 0) 63)) (range 0 256)) (range 0 256) = true.
+    (Z.land (Z.shiftr (Z.lor h 8 * 256 + Z.lor h2 64) 12) 15 =? Z.land (Z.shiftr (h * 256 + h2) 12) 15) && (Z.land (Z.shiftr (Z.lor h 8 * 256 + Z.lor h2 64) 8) 7 =? Z.land (Z.shiftr (h * 256 + h2) 8) 7) &&
+    (Z.land (Z.shiftr (Z.lor h 8 * 256 + Z.lor h2 64) 7) 1 =? Z.land (Z.shiftr (h * 256 + h2) 7) 1) && (Z.land (Z.shiftr (Z.lor h 8 * 256 + Z.lor h2 64) 0) 63 =? Z.land (Z.shiftr (h * 256 + h2) 0) 63)) (range 0 256)) (range 0 256) = true.
 Proof. vm_compute. reflexivity. Qed.
-
 Lemma rfu_ignored2 chk fs h h2 rest : 0 <= h < 256 -> 0 <= h2 < 256 ->
   decode chk (hdr2 :: fs) (Z.lor h 8 :: Z.lor h2 64 :: rest) = decode chk (hdr2 :: fs) (h :: h2 :: rest).
 Proof.
   intros Hh Hh2. unfold decode. destruct (proto_ok (hdr2 :: fs)); [|reflexivity].
   unfold dec_fuel. cbn [length]. unfold hdr2. rewrite !dec_first_bits2.
-  pose proof (forallb_range _ _ _ (forallb_range _ _ _ rfu2_windows_sweep h Hh) h2 Hh2) as Hs. cbv beta zeta in Hs.
+  pose proof (forallb_range _ _ _ (forallb_range _ _ _ rfu2_windows_sweep h Hh) h2 Hh2) as Hs. cbv beta in Hs.
   apply andb_true_iff in Hs as [Hs S4]. apply andb_true_iff in Hs as [Hs S3]. apply andb_true_iff in Hs as [S1 S2].
   apply Z.eqb_eq in S1, S2, S3, S4.
   rewrite (dec_bits_ext _ (Z.lor h 8 * 256 + Z.lor h2 64) (h * 256 + h2)); [reflexivity|].
-  intros k bl fx o m Hin. cbn in Hin. destruct Hin as [E|[E|[E|[E|[E|[E|[]]]]]]]; try discriminate; injection E as _ _ _ <- <-; assumption.
+  intros k bl fx o m Hin. cbn in Hin. (destruct Hin as [E|[E|[E|[E|[E|[E|[]]]]]]]; try discriminate; injection E as _ _ _ <- <-; assumption).
 Qed.
 
 Lemma rfu_ignored_all chk h h2 rest : 0 <= h < 256 -> 0 <= h2 < 256 ->
@@ -250,18 +248,27 @@ Lemma rfu_ignored_all chk h h2 rest : 0 <= h < 256 -> 0 <= h2 < 256 ->
   decode chk pdu_v2_tx (Z.lor h 8 :: Z.lor h2 64 :: rest) = decode chk pdu_v2_tx (h :: h2 :: rest).
 Proof.
   intros Hh Hh2. destruct defs_eq as [E1 [_ [E2 [E3 [E4 [E5 [E6 _]]]]]]]. rewrite E1, E2, E3, E4, E5, E6.
-  repeat split; try (apply rfu_ignored01; exact Hh); apply rfu_ignored2; assumption.
+  do 4 (split; [apply rfu_ignored01; exact Hh|]). split; apply rfu_ignored2; assumption.
 Qed.
 
 (* batched sub-PDU: the five RFU bits of its first octet, and the three spare octets of a Tx (sub-)PDU, are not looked at *)
+Lemma sub_windows_sweep : forallb (fun h => forallb (fun h2 =>
+    (Z.land (Z.shiftr (h * 256 + h2) 8) 7 =? Z.land h 7) && (Z.land (Z.shiftr (h * 256 + h2) 7) 1 =? Z.land (Z.shiftr h2 7) 1) &&
+    (Z.land (Z.shiftr (h * 256 + h2) 6) 1 =? Z.land (Z.shiftr h2 6) 1) && (Z.land (Z.shiftr (h * 256 + h2) 0) 63 =? Z.land h2 63)) (range 0 256)) (range 0 256) = true.
+Proof. vm_compute. reflexivity. Qed.
+Lemma sub_windows h h2 : 0 <= h < 256 -> 0 <= h2 < 256 ->
+  Z.land (Z.shiftr (h * 256 + h2) 8) 7 = Z.land h 7 /\ Z.land (Z.shiftr (h * 256 + h2) 7) 1 = Z.land (Z.shiftr h2 7) 1 /\
+  Z.land (Z.shiftr (h * 256 + h2) 6) 1 = Z.land (Z.shiftr h2 6) 1 /\ Z.land (Z.shiftr (h * 256 + h2) 0) 63 = Z.land h2 63.
+Proof.
+  intros Hh Hh2. pose proof (forallb_range _ _ _ (forallb_range _ _ _ sub_windows_sweep h Hh) h2 Hh2) as Hs. cbv beta in Hs.
+  apply andb_true_iff in Hs as [Hs S4]. apply andb_true_iff in Hs as [Hs S3]. apply andb_true_iff in Hs as [S1 S2].
+  apply Z.eqb_eq in S1, S2, S3, S4. auto.
+Qed.
 Lemma sub_rfu_windows h h' h2 : 0 <= h < 256 -> 0 <= h' < 256 -> 0 <= h2 < 256 -> Z.land h 7 = Z.land h' 7 ->
   forall o m, In (o, m) [(8, 7); (7, 1); (6, 1); (0, 63)] -> Z.land (Z.shiftr (h' * 256 + h2) o) m = Z.land (Z.shiftr (h * 256 + h2) o) m.
 Proof.
-  intros Hh Hh' Hh2 E o m Hin. change 7 with (Z.ones 3) in *. change 1 with (Z.ones 1). change 63 with (Z.ones 6).
-  rewrite !Z.land_ones in * by lia. cbn [In] in Hin.
-  destruct Hin as [P|[P|[P|[P|[]]]]]; injection P as <- <-; rewrite ?Z.land_ones by lia; rewrite !Z.shiftr_div_pow2 by lia;
-    [change (2 ^ 8) with 256; change (2 ^ 3) with 8 in *|change (2 ^ 7) with 128; change (2 ^ 1) with 2|change (2 ^ 6) with 64; change (2 ^ 1) with 2|change (2 ^ 0) with 1; change (2 ^ 6) with 64];
-    try change (2 ^ 3) with 8 in E; lia.
+  intros Hh Hh' Hh2 E o m Hin. destruct (sub_windows h h2 Hh Hh2) as [A1 [A2 [A3 A4]]]. destruct (sub_windows h' h2 Hh' Hh2) as [B1 [B2 [B3 B4]]].
+  cbn [In] in Hin. destruct Hin as [P|[P|[P|[P|[]]]]]; injection P as <- <-; congruence.
 Qed.
 
 Lemma sub_rfu_ignored recd recs e h h' h2 rest : 0 <= h < 256 -> 0 <= h' < 256 -> 0 <= h2 < 256 -> Z.land h 7 = Z.land h' 7 ->
